@@ -1,0 +1,31 @@
+//go:build verif
+
+// Verification hooks (build tag "verif") for the encrypted-transport checks under /verif (C18).
+// Add-only observers: nothing here is compiled without the tag and nothing here repeats the
+// logic of InitExportingProcess / createClientConfig.
+
+package exporter
+
+import (
+	"crypto/tls"
+	"fmt"
+)
+
+// VerifClientTLSConfig exposes createClientConfig: the *tls.Config the exporter would hand to
+// tls.Dial for this TLSClientConfig.
+func VerifClientTLSConfig(cfg *ExporterTLSClientConfig) (interface{}, error) {
+	return createClientConfig(cfg)
+}
+
+// VerifConnInfo reports the dynamic type of the connection to the collector ("<nil>" when
+// InitExportingProcess left it unset) and, for a TLS connection, the negotiated version.
+func (ep *ExportingProcess) VerifConnInfo() (kind string, version uint16) {
+	if ep.connToCollector == nil {
+		return "<nil>", 0
+	}
+	kind = fmt.Sprintf("%T", ep.connToCollector)
+	if c, ok := ep.connToCollector.(*tls.Conn); ok {
+		version = c.ConnectionState().Version
+	}
+	return kind, version
+}
